@@ -4,17 +4,8 @@ import json, pathlib
 ROOT = pathlib.Path(__file__).resolve().parent
 PROPS = [json.loads(l) for l in (ROOT / "properties.jsonl").read_text().splitlines() if l.strip()]
 
-CLAIMED = {
-    "C15": dict(
-        text="Lean 4 theorems over a hand-written model of CRNHyperGraph (store invariant for every reachable state of every "
-             "operation history, isolation of stores, fresh ids, lookup frame conditions, incidence = products - reactants), tied to "
-             "the working tree by a correspondence run: exhaustive short histories plus long random histories executed on the real "
-             "class and on the model, compared after every operation.",
-        note="Trusted: Lean kernel; axioms propext/Classical.choice/Quot.sound at most; the JSON driver and the Python adapter; "
-             "the correspondence is differential testing. Not modelled: string parsing entry points (C16), set_mol_map, path queries.",
-        technique="Lean 4 invariant proof by induction over operation histories + model/implementation correspondence",
-        design="5/C15"),
-}
+# one JSON file per claimed property under claims/ (text, note, technique, design)
+CLAIMED = {f.stem: json.loads(f.read_text()) for f in sorted((ROOT / "claims").glob("C*.json"))}
 PENDING_REASON = "check not built yet in this session (work in progress; see DESIGN.md section 5 for the plan)"
 
 def main():
